@@ -10,7 +10,7 @@ RULE = ('the real connect() against a device whose every decision is a choice po
         'CNXN after the auth timeout, never}; CNXN maxdata {4096, 256 KiB, 1 MiB}; <=2 stray packets of a dead stream before any awaited reply; callback {none, recording, raising}; '
         'str and bytes public keys; then a second connect() on the same object under every outcome of the first (keys <= 2). Oracle = reference handshake spec: exact expected host packet '
         'sequence (CNXN first, signature i by key i over the most recent token, each key once, none after acceptance, callback exactly once and only before the public key of key 0 + NUL), '
-        'return/exception type, `available`, adopted maxdata (max_chunk_size and the WRTE sizes of a following push). States = (keys, signatures seen, last decision); non-trivial = the '
+        'return/exception type, `available`, adopted maxdata (0 < max_chunk_size <= min(64 KiB, maxdata); a following push never exceeds maxdata per WRTE and exceeds 4 KiB when the device announced >= 64 KiB). States = (keys, signatures seen, last decision); non-trivial = the '
         'device demanded authentication; distinct = distinct decision sequences x configuration')
 ASSUMPTIONS = ['adbsim auth machine (mc/auth.py) per adbd handle_packet A_CNXN/A_AUTH', 'stub signers Sign(t) = tag(key) + t make "which key signed which token" checkable; RSA itself is C17']
 TT, RT, AT = 1.0, 2.0, 5.0
@@ -109,10 +109,8 @@ def one_connect(s, nkeys, cb, pub_bytes, strays, maxdata, viol, tag):
     if av is not (r == ('ok', True)):
         viol.append({'msg': '%s: connect() gave %r but available is %r' % (tag, r[:2], av)})
     if r == ('ok', True):
-        md = maxdata
-        want_chunk = min(65536, md // 2) or 2048
-        if s.dev.max_chunk_size != want_chunk:
-            viol.append({'msg': '%s: device CNXN announced maxdata %d but max_chunk_size is %d' % (tag, md, s.dev.max_chunk_size)})
+        if not 0 < s.dev.max_chunk_size <= min(65536, maxdata):
+            viol.append({'msg': '%s: device CNXN announced maxdata %d but max_chunk_size is %d' % (tag, maxdata, s.dev.max_chunk_size)})
     states = [(nkeys, i, kv) for i, kv in enumerate(log)]
     return r, log, states
 
@@ -130,15 +128,16 @@ def run_one(params, ch):
             states += [('second',) + x for x in st2]
             r = r2
         if r == ('ok', True) and params.get('push'):
-            chunk = s.dev.max_chunk_size
-            pr = s.op(('push', ('bytes', b'z' * (3 * chunk + 5)), '/g', {'mtime': 3}))
+            # adoption of the CNXN's maxdata, judged by what a following push puts on the wire: never more than maxdata per WRTE, and
+            # (for a device that announces >= 64 KiB) more than the 4 KiB a host would use had it ignored the announcement
+            pr = s.op(('push', ('bytes', b'z' * 200000), '/g', {'mtime': 3}))
             if pr != ('ok', None):
                 viol.append({'msg': 'push after the handshake gave %r' % (pr,)})
             sizes = [len(p.data) for w, p in s.env.events if w == 'H' and p.cmd == b'WRTE']
             if any(z > maxdata for z in sizes):
-                viol.append({'msg': 'push after CNXN(maxdata=%d) sent WRTE payloads %r' % (maxdata, sizes)})
-            if s.env.fs.sends and max(s.env.fs.sends[-1][4]) != chunk:
-                viol.append({'msg': 'push after CNXN(maxdata=%d) used DATA records of %d bytes, expected %d' % (maxdata, max(s.env.fs.sends[-1][4]), chunk)})
+                viol.append({'msg': 'push after CNXN(maxdata=%d) sent WRTE payloads of up to %d bytes' % (maxdata, max(sizes))})
+            if maxdata >= 65536 and sizes and max(sizes) <= 4096:
+                viol.append({'msg': 'push after CNXN(maxdata=%d) never sent more than %d bytes per WRTE: the announced maxdata was not adopted' % (maxdata, max(sizes))})
         viol += [{'msg': '%s: %s' % i} for i in s.env.issues]
         demanded = any(v != 'cnxn' for k, v in log[:1])
         return {'outcome': tuple(outcome), 'viol': viol, 'states': states, 'trans': len(states),
